@@ -772,7 +772,9 @@ class Engine:
         if process_updates:
             for path, process in process_updates:
                 assoc_path(self.processes, path, process)
-                self._add_process_path(process, path, {})
+                # (a step listed under the processes finds its flow
+                # entry, as it does at construction)
+                self._add_process_path(process, path, self.flow)
 
         if step_updates:
             for path, step in step_updates:
